@@ -81,6 +81,86 @@ class ExprMixin:
             return None, st
         return st.fork().assume(cond), st.fork().assume(Not(cond))
 
+    # ------------------------------------------------------------ path merging
+    def try_merge(self, s1, v1, s2, v2):
+        """Join two paths that forked on one condition: values become ite, path conditions a disjunction.
+        Returns (state, value) or None when the paths cannot be joined."""
+        g1 = {k: v for k, v in s1.ghost.items() if not (isinstance(k, tuple) and k[0] == "O")}
+        g2 = {k: v for k, v in s2.ghost.items() if not (isinstance(k, tuple) and k[0] == "O")}
+        if g1 != g2:
+            return None
+        n = 0
+        while n < len(s1.pc) and n < len(s2.pc) and s1.pc[n] == s2.pc[n]:
+            n += 1
+        r1, r2 = s1.pc[n:], s2.pc[n:]
+        if not r1 or not r2:
+            return None
+        d = r1[0]
+        if not (r2[0] == Not(d) or d == Not(r2[0])):
+            return None
+
+        def join(a, b):
+            if a is b:
+                return a
+            if isinstance(a, PyC) and isinstance(b, PyC) and a.obj is b.obj:
+                return a
+            if isinstance(a, (Closure, BM)) or isinstance(b, (Closure, BM)) or isinstance(a, dict) or isinstance(b, dict):
+                raise OutOfSubset("join of python-side values")
+            if isinstance(a, SymObj) or isinstance(b, SymObj):
+                if isinstance(a, SymObj) and isinstance(b, SymObj):
+                    raise OutOfSubset("join of distinct fresh objects")
+            la, lb = self.lift(a), self.lift(b)
+            if la.sort == lb.sort and la.sort != "V":
+                return Val(Ite(d, la.t, lb.t), la.sort)
+            kind = la.kind if la.kind == lb.kind else None
+            cls = la.cls if la.cls is lb.cls else None
+            origin = la.origin if la.origin == lb.origin else None
+            return Val(Ite(d, asV(la), asV(lb)), kind=kind, cls=cls, fresh=Ite(d, la.fresh, lb.fresh), origin=origin)
+        try:
+            env = {}
+            for k in s1.env:
+                if k in s2.env:
+                    env[k] = join(s1.env[k], s2.env[k])
+            if set(s1.env) != set(s2.env):
+                # a name bound on one side only stays unbound after the join (reading it would be an error anyway)
+                pass
+            v = None
+            if v1 is not None or v2 is not None:
+                v = join(v1, v2)
+        except OutOfSubset:
+            return None
+        s = s1.fork()
+        s.env = env
+        try:
+            for k in set(s1.ghost) | set(s2.ghost):
+                if isinstance(k, tuple) and k[0] == "O":
+                    a1, a2 = s1.ghost.get(k), s2.ghost.get(k)
+                    if a1 is None or a2 is None:
+                        s.ghost[k] = a1 if a1 is not None else a2
+                    else:
+                        s.ghost[k] = {name: join(a1[name], a2[name]) for name in a1 if name in a2}
+        except OutOfSubset:
+            return None
+        s.pc = s1.pc[:n] + (Or(And(*r1), And(*r2)),)
+        return s, v
+
+    def merge_results(self, results):
+        """Merge the non-exceptional results of an expression that forked (keeps exceptional ones apart)."""
+        normal = [(s, v) for s, v in results if not is_exc(v)]
+        exc = [(s, v) for s, v in results if is_exc(v)]
+        while len(normal) >= 2:
+            merged = None
+            for i in range(len(normal) - 1):
+                m = self.try_merge(normal[i][0], normal[i][1], normal[i + 1][0], normal[i + 1][1])
+                if m is not None:
+                    merged = (i, m)
+                    break
+            if merged is None:
+                break
+            i, m = merged
+            normal[i:i + 2] = [m]
+        return exc + normal
+
     # ------------------------------------------------------------ dispatcher
     def ev(self, st, n):
         m = getattr(self, "e_" + type(n).__name__, None)
@@ -246,7 +326,7 @@ class ExprMixin:
                 out.extend(self.ev(t, n.body))
             if f is not None:
                 out.extend(self.ev(f, n.orelse))
-        return out
+        return self.merge_results(out)
 
     def e_BoolOp(self, st, n):
         def go(s, idx):
@@ -267,7 +347,7 @@ class ExprMixin:
                     if f is not None:
                         res.extend(go(f, idx + 1))
             return res
-        return go(st, 0)
+        return self.merge_results(go(st, 0))
 
     def e_UnaryOp(self, st, n):
         out = []
